@@ -15,6 +15,7 @@ package lnwire
 
 import (
 	"bytes"
+	"compress/zlib"
 	"encoding/binary"
 	"encoding/hex"
 	"fmt"
@@ -279,6 +280,12 @@ func vCheckBytes(t MessageType, b []byte, mut string, base []byte) vRow {
 	if err != nil {
 		return row
 	}
+	switch q := m.(type) {
+	case *QueryShortChanIDs:
+		row["nids"] = len(q.ShortChanIDs)
+	case *ReplyChannelRange:
+		row["nids"] = len(q.ShortChanIDs)
+	}
 	if f := vFields(m); f != nil && len(b) <= 6000 {
 		row["model"] = true
 		row["fields"] = f
@@ -542,6 +549,33 @@ func TestVerifWire(t *testing.T) {
 			out.emit(vCheckBytes(mt, b, "size-boundary", nil))
 		}
 	}
+	// ---- zlib short-channel-id lists around the decode bound ----
+	// (strictly increasing ids cost > 1 byte each under deflate, so the
+	// 100000-id bound cannot be reached within a 65535-byte message; the
+	// largest list that fits is exercised)
+	for _, n := range []int{1000, 30000, 34000} {
+		var raw bytes.Buffer
+		for i := 1; i <= n; i++ {
+			var id [8]byte
+			binary.BigEndian.PutUint64(id[:], uint64(i))
+			raw.Write(id[:])
+		}
+		var z bytes.Buffer
+		zw := zlib.NewWriter(&z)
+		zw.Write(raw.Bytes())
+		zw.Close()
+		if z.Len()+1 > 65000 {
+			continue
+		}
+		body := append([]byte{byte(EncodingSortedZlib)}, z.Bytes()...)
+		b := append([]byte{0x01, 0x05}, make([]byte, 32)...)
+		b = append(b, byte(len(body)>>8), byte(len(body)))
+		b = append(b, body...)
+		row := vCheckBytes(MsgQueryShortChanIDs, b, "zlib-bound", nil)
+		row["zn"] = n
+		out.emit(row)
+	}
+
 	// WriteMessage must refuse a 65534-byte body
 	for _, n := range []int{65533, 65534, 70000} {
 		m := &Custom{Type: CustomTypeStart, Data: make([]byte, n)}
